@@ -96,7 +96,7 @@ class Ctx(object):
         sys.stdout.flush()
 
     # ------------------------------------------------------------------ model runs
-    def model(self, module, cfg, workers=NCPU, env=None, extra=(), timeout=3000, heap="8g",
+    def model(self, module, cfg, workers=NCPU, env=None, extra=(), timeout=3000, heap="5g",
               expect_violation=None, simulate=None, coverage=False, count=True):
         """Run TLC on the bounded model.  The reference design must satisfy the
         properties (else the check is broken: MachineryError).  With
@@ -154,7 +154,7 @@ class Ctx(object):
         return out
 
     # ------------------------------------------------------------------ judging
-    def judge(self, trace_module, driven, cfg=None, batch=4000, heap="3g", env=None, timeout=3000):
+    def judge(self, trace_module, driven, cfg=None, batch=4000, heap="2500m", env=None, timeout=3000):
         """Hand the driven cases to TLC (spec/<trace_module>.tla).  `driven` is a
         list of (case, events).  Returns the failing verdicts (also kept in
         self.verdicts); every event of every case is judged (total verdicts)."""
